@@ -134,6 +134,30 @@ func init() {
 				e.close()
 			}
 		}
+		// a credential whose lifetime runs out WHILE its request waits for the refresh lock: the re-read under the lock fails
+		// (expired / gone), and the request must not go on with the copy it read before the wait
+		for _, redis := range []bool{false, true} {
+			e, err := newEnv(c, proxyCfg{Redis: redis, CookieExpire: time.Hour, CookieRefresh: time.Minute, InjectRequest: defaultInject()})
+			if err != nil {
+				c.violation("HARNESS", "env: "+err.Error(), nil)
+				continue
+			}
+			e.instrument()
+			s := e.sessionFor(u, 59*time.Minute+58*time.Second)
+			s.RefreshToken = fmt.Sprintf("rt-lw-%d", time.Now().UnixNano())
+			e.registerRT(s.RefreshToken, u)
+			ck := e.issueSessionCookie(s)
+			v, real := e.serveCase(reqSpec{Target: "/app/x", Cookie: ck}, &faultPlan{at: map[string]string{"load#2": "before"}}, "lifetime:expired-during-lock-wait")
+			if v != nil {
+				c.casen(fmt.Sprintf("c09e|lockwait|%v", redis), real)
+				c.count("c09:expired-during-lock-wait")
+				if len(v.Hits) > 0 || hasSessionSet(v, e.opts.Cookie.Name) {
+					c.violation("C09", "a credential that could no longer be read under the refresh lock (its lifetime ran out during the wait) was honoured / re-issued with a full new lifetime",
+						map[string]interface{}{"redis": redis, "response": real, "reissued": hasSessionSet(v, e.opts.Cookie.Name)})
+				}
+			}
+			e.close()
+		}
 		// a session that is due for refresh but CANNOT be refreshed (no refresh token; the provider answers "not refreshed")
 		// keeps its original creation time: it is served after re-validation, but never re-issued with a new lifetime
 		for _, redis := range []bool{false, true} {
@@ -176,7 +200,7 @@ func init() {
 			}
 			e.close()
 		}
-		c.close([]string{"c09:probe-before-any-callback", "c09:probe-after-callback-1", "c09:max-age", "c09:not-refreshable", "c09:max-age-split"})
+		c.close([]string{"c09:probe-before-any-callback", "c09:probe-after-callback-1", "c09:max-age", "c09:not-refreshable", "c09:max-age-split", "c09:expired-during-lock-wait"})
 	})
 
 	registerSuite("storeleak", func(c *suiteCtx) {
